@@ -73,8 +73,8 @@ def gen_op(rnd: random.Random, M, c, counter):
     kind = rnd.choice(['emplace', 'emplace', 'add_gate', 'add_inputs', 'remove', 'rename', 'mark', 'set_outputs', 'set_inputs', 'order_inputs', 'order_outputs',
                        'replace_inputs', 'make_block', 'slice', 'delete_block', 'remove_block', 'connect', 'into_bench', 'replace_sub', 'copy'])
     if kind in ('emplace', 'add_gate'):
-        t = rnd.choice(TYPES2 + TYPES1 + ['AND3', 'ALWAYS_TRUE'])
-        ops = tuple(some(2)) if t in TYPES2 else tuple(some(1)) if t in TYPES1 else tuple(some(3)) if t == 'AND3' else ()
+        t = rnd.choice(TYPES2 + TYPES1 + ['AND3', 'ALWAYS_TRUE', 'ALWAYS_FALSE'])
+        ops = tuple(some(2)) if t in TYPES2 else tuple(some(1)) if t in TYPES1 else tuple(some(3)) if t == 'AND3' else tuple(some(rnd.choice((0, 1, 2))))   # constants may carry operands
         t = 'AND' if t == 'AND3' else t
         lab = rnd.choice(labels) if (bad and labels) else fresh()
         if bad and rnd.random() < 0.5:
@@ -268,7 +268,7 @@ STARTS = [
 ]
 
 
-def fold_histories(ck: Checker, R: str):
+def fold_histories(ck: Checker, R: str, only=None):
     repo = ck.repo
     M = real_model(repo)
     mod = M.mod
@@ -308,6 +308,8 @@ def fold_histories(ck: Checker, R: str):
                 rec['problems'].append(f'{pr[0]} after the history {" ; ".join(trail)} (start state {h % len(STARTS)})')
                 break
     for name, rec in sorted(per_method.items()):
+        if only and name not in only:
+            continue
         ck.check(not rec['problems'], R, mod, mod.func(f'Circuit.{name}'), f'{name}: every call that returns leaves a well-formed circuit ({rec["returned"]} of {rec["calls"]} calls returned, inside {n_hist} seeded histories of <= {length} public mutations)',
                  '; '.join(rec['problems'][:2]), construct=f'Circuit.{name} inside histories of public mutations')
     ck.notes['history_calls'] = n_calls
